@@ -19,18 +19,7 @@ int verif_nsyms;
 verif_framerec verif_frames[VERIF_NFRAMES];
 int verif_nframes;
 }
-namespace std {
-struct ostream
-{
-    int ev[24];
-    int n;
-    void log(int e) { __CPROVER_assert(n < 24, "stub: ostream log capacity"); ev[n] = e; n++; }
-    ostream& operator<<(char) { log(1); return *this; }
-    ostream& operator<<(const char*) { log(1); return *this; }
-    ostream& operator<<(double) { log(2); return *this; }
-    ostream& operator<<(int) { log(3); return *this; }
-};
-}
+#include "double_text.h"
 using namespace UTAP;
 using namespace Constants;
 using std::vector;
@@ -64,6 +53,7 @@ double expression_t::get_double_value() const
 {
     __CPROVER_assert(data && data->kind == CONSTANT && data->type.is(Constants::DOUBLE), "code-assert: get_double_value(): data->kind == CONSTANT && data->type.is(DOUBLE)");
     if (g_os) g_os->log(30 + role_of(data));
+    verif_last_double = data->value.d;
     return data->value.d;
 }
 std::ostream& expression_t::print__contract(std::ostream& os, bool) const { os.log(10 + role_of(data)); return os; }
@@ -79,9 +69,11 @@ public:
     void expr_proba_quantitative(kind_t pathType);
     void expr_proba_qualitative(kind_t pathType, kind_t comp, double probBound);
     void expr_proba_expected(int aggOpId_is_max);
+    void expr_proba_compare(kind_t pathType1, kind_t pathType2);
 };
 }
 #include "query_builder_funcs.inc" /* REAL callbacks, lowered */
+#include "double_helper.inc"      /* REAL: the static conversion helper of expression.cpp, if there is one */
 #include "query_print_funcs.inc"   /* REAL: print_bound_type + the PROBA_* print clauses */
 
 static ExpressionBuilder eb;
@@ -103,6 +95,21 @@ void w03q_setup(int bt, int runs, int n, int until_is_true)
         role_node[4] = e.data; eb.fragments.push(e);
     }
 }
+/* Pr[..](..) >= Pr[..](..): per side, in grammar order: bound type (CONSTANT int), bound, runs (CONSTANT int), predicate;
+   roles 0..3 for the left side, 4..7 for the right side */
+void w03q_setup_cmp(int bt1, int bt2, int runs1, int runs2)
+{
+    verif_errors = 0; verif_thrown = 0;
+    for (int i = 0; i < 8; i++) role_node[i] = nullptr;
+    expression_t e;
+    for (int side = 0; side < 2; side++) {
+        e = expression_t::create_constant(side == 0 ? bt1 : bt2); role_node[4 * side + 0] = e.data; eb.fragments.push(e);
+        e = expression_t::create_identifier(symbol_t()); role_node[4 * side + 1] = e.data; e.data->kind = PLUS; eb.fragments.push(e);
+        e = expression_t::create_constant(side == 0 ? runs1 : runs2); role_node[4 * side + 2] = e.data; eb.fragments.push(e);
+        e = expression_t::create_identifier(symbol_t()); role_node[4 * side + 3] = e.data; e.data->kind = GT; eb.fragments.push(e);
+    }
+}
+void w03q_build_cmp(int box1, int box2) { eb.expr_proba_compare(box1 ? BOX : DIAMOND, box2 ? BOX : DIAMOND); }
 void w03q_build(int which, int path_is_box, int comp_is_le, double prob, int agg_is_max)
 {
     if (which == 0) eb.expr_proba_quantitative(path_is_box ? BOX : DIAMOND);
@@ -110,13 +117,23 @@ void w03q_build(int which, int path_is_box, int comp_is_le, double prob, int agg
     else eb.expr_proba_expected(agg_is_max);
 }
 int w03q_node(int what) { expression_t e = eb.fragments[0]; return what == 0 ? (int)e.data->kind : what == 1 ? (int)e.data->sub.size() : (int)eb.fragments.size(); }
+/* K3: the CONSTANT clause of expression_t::print on a floating-point constant of value v */
+void w03d_print_constant(double v, int* log, int* nlog)
+{
+    std::ostream os; os.n = 0; g_os = &os;
+    expression_t e = expression_t::create_double(v);
+    e.print_constant_clause(os, false);
+    g_os = nullptr;
+    for (int i = 0; i < 40; i++) log[i] = i < os.n ? os.ev[i] : 0;
+    *nlog = os.n;
+}
 void w03q_print(int* log, int* nlog)
 {
     std::ostream os; os.n = 0; g_os = &os;
     expression_t e = eb.fragments[0];
     e.print_query_clauses(os, false);
     g_os = nullptr;
-    for (int i = 0; i < 24; i++) log[i] = i < os.n ? os.ev[i] : 0;
+    for (int i = 0; i < 40; i++) log[i] = i < os.n ? os.ev[i] : 0;
     *nlog = os.n;
 }
 }
